@@ -388,13 +388,25 @@ fn index_version(data: &[u8]) -> u32 {
 /// index mentions when `with_objects` (then the cache-tree is compared against `git write-tree --prefix`).
 fn oracle(rep: &mut Report, repo: &Path, index: &Path, data: &[u8], obs: &Obs, op: &str, with_objects: bool, untr_probe: Option<(u32, u32)>, tracked: &mut Vec<Vec<u8>>, pick: u64) {
     let version = index_version(data);
-    let listing = git_with_index(repo, index, &["ls-files", "--sparse", "--stage", "--debug", "-z"], None);
+    // with core.sparseCheckout git clears SKIP_WORKTREE *in memory* for files that are present in the worktree
+    // (clear_skip_worktree_from_present_files); the property is about what is stored, so that is switched off
+    let listing = git_with_index(
+        repo,
+        index,
+        &["-c", "sparse.expectFilesOutsideOfPatterns=true", "ls-files", "--sparse", "--stage", "--debug", "-z"],
+        None,
+    );
     rep.git_checked(1);
     if !listing.ok {
         rep.outside_domain(&format!(
             "git itself rejects this index: {}",
             String::from_utf8_lossy(&listing.stderr).trim()
         ));
+        return;
+    }
+    if !with_objects && String::from_utf8_lossy(&listing.stderr).contains("error:") {
+        // replaying a sparse index without the repository it came from: git wants the trees to expand it
+        rep.outside_domain("replay without the original object database: git cannot expand this sparse index, listing not compared");
         return;
     }
     let git_entries = match parse_debug_listing(&listing.stdout) {
@@ -858,10 +870,10 @@ fn do_step(rep: &mut Report, r: &mut Rng, repo: &mut Repo, step: Step) {
             }
         }
         Step::LongPaths => {
-            let n = 1 + r.usize(3);
+            let n = 2 + r.usize(3);
             let mut lines = Vec::new();
-            for _ in 0..n {
-                let len = match r.below(10) {
+            for i in 0..n {
+                let len = match if i == 0 { r.below(5) } else { r.below(10) } {
                     0 => 4094,
                     1 | 2 => 4095,
                     3 => 4096,
@@ -1015,9 +1027,19 @@ fn scenario(rep: &mut Report, r: &mut Rng, scratch: &Scratch, k: u64, seen: &mut
         untracked_cache: false,
     };
     repo.g(rep, &["init", "-q", "."], None);
-    let version = *r.pick(&["2", "2", "4", "4", "4", "3"]);
+    // the first scenarios are a fixed corpus: long paths under version 2 and 4 (with and without offset table), …
+    let version = match k {
+        0 | 3 => "2",
+        1 | 2 | 4 => "4",
+        _ => *r.pick(&["2", "2", "4", "4", "4", "3"]),
+    };
     repo.g(rep, &["config", "index.version", version], None);
-    let threads = *r.pick(&["", "1", "2", "3", "3", "5", "8", "true"]);
+    let threads = match k {
+        0 => "",
+        1 => "3",
+        2 => "1",
+        _ => *r.pick(&["", "1", "2", "3", "3", "5", "8", "true"]),
+    };
     if !threads.is_empty() {
         repo.g(rep, &["config", "index.threads", threads], None);
     }
@@ -1035,10 +1057,10 @@ fn scenario(rep: &mut Report, r: &mut Rng, scratch: &Scratch, k: u64, seen: &mut
     }
     // corpus scenarios first (k small), then random walks
     let plan: Vec<Step> = match k {
-        0 => vec![Step::AddFiles, Step::LongPaths, Step::LongPaths, Step::AddFiles, Step::LongPaths],
-        1 => vec![Step::AddFiles, Step::Commit, Step::RealMerge, Step::ResolveConflict, Step::Status],
-        2 => vec![Step::AddFiles, Step::AddFiles, Step::Commit, Step::Sparse, Step::Status],
-        3 => vec![Step::AddFiles, Step::IntentToAdd, Step::SkipWorktree, Step::AssumeUnchanged, Step::ConflictInfo, Step::ResolveConflict, Step::LongPaths],
+        0 | 1 | 2 => vec![Step::AddFiles, Step::LongPaths, Step::LongPaths, Step::AddFiles, Step::LongPaths, Step::IntentToAdd],
+        3 => vec![Step::AddFiles, Step::Commit, Step::RealMerge, Step::ResolveConflict, Step::Status],
+        4 => vec![Step::AddFiles, Step::AddFiles, Step::Commit, Step::Sparse, Step::Status],
+        5 => vec![Step::AddFiles, Step::IntentToAdd, Step::SkipWorktree, Step::AssumeUnchanged, Step::ConflictInfo, Step::ResolveConflict, Step::LongPaths],
         _ => {
             let n = 3 + r.usize(7);
             let all = [
@@ -1309,6 +1331,9 @@ fn main() {
         let dir = scratch.join("replay");
         std::fs::create_dir_all(&dir).expect("mkdir");
         git_ok(&dir, &["init", "-q", "."], None);
+        for (k, v) in [("core.sparseCheckout", "true"), ("core.sparseCheckoutCone", "true"), ("index.sparse", "true")] {
+            git_ok(&dir, &["config", k, v], None);
+        }
         for op in ops {
             let parts: Vec<&str> = op.split(' ').collect();
             match parts.as_slice() {
@@ -1392,7 +1417,7 @@ fn main() {
 
     // git-written indices
     let mut seen = std::collections::BTreeSet::new();
-    let scenarios = args.budget(10, 220);
+    let scenarios = args.budget(11, 90);
     for k in 0..scenarios {
         scenario(&mut rep, &mut r, &scratch, k, &mut seen);
     }
